@@ -1,1 +1,358 @@
-"""Rules for C02 (see DESIGN.md section 5)."""
+"""C02 -- geometry, function patterns, format / version information, metadata."""
+import ast
+
+from .. import ev, iso, nf, pat, src, reg
+from ..core import rule, ob, explain, Ob
+from ..interp import Interp, make_callable, Raised, FuncVal
+from ..src import Unknown
+from .common import C, levels, micro_versions, table_ob, need, single, repo_version
+
+explain('C02', '''Decided (structural, exhaustive): the 32+32 format words and 34 version words equal the
+BCH(15,5)/Golay(18,6) codewords XOR mask; the alignment table equals ISO Annex E; the size formula; for each of the
+44 symbol sizes the function-pattern writers (make_matrix, add_timing_pattern, add_finder_patterns,
+add_alignment_patterns, add_format_info, add_version_info) are interpreted on an abstract matrix and EVERY cell is
+compared with an independent anchored layout: finder/separator/timing/alignment values, the bit number carried by
+each format/version cell in both copies, the dark module, and that every other cell is still the data placeholder
+(so reservation = written regions and the number of data cells equals the ISO data-module count); the index used to
+look up the format word equals (level indicator << 3 | mask) resp. (Micro symbol number << 2 | mask) for all 1312
+(version, level, mask) triples; the version/error/mask handed to the format writers are the definitions stored in the
+returned Code and reported by QRCode. NOT decided: that add_codewords fills the data cells in ISO order (C03.R6 decides
+its guards only); 'only dark/light values' for data cells follows from C03.R6's completeness check and cell conservation.''')
+
+
+@rule('C02', 'R1', 98, 'format and version words = BCH(15,5)^mask / Golay(18,6) codewords')
+def r1(fx):
+    f, fm, vi = C(fx, 'FORMAT_INFO'), C(fx, 'FORMAT_INFO_MICRO'), C(fx, 'VERSION_INFO')
+    need(len(f) == 32 and len(fm) == 32 and len(vi) == 34, 'format/version table lengths')
+    for d in range(32):
+        yield table_ob(fx, 'FORMAT_INFO', d, f[d], iso.format_word(d))
+    for d in range(32):
+        yield table_ob(fx, 'FORMAT_INFO_MICRO', d, fm[d], iso.format_word_micro(d))
+    for v in range(7, 41):
+        yield table_ob(fx, 'VERSION_INFO', v - 7, vi[v - 7], iso.golay18_6(v))
+
+
+@rule('C02', 'R2', 39, 'ALIGNMENT_POS = ISO Annex E centres for versions 2..40')
+def r2(fx):
+    ap = C(fx, 'ALIGNMENT_POS')
+    need(len(ap) == 39, f'ALIGNMENT_POS has {len(ap)} rows')
+    for v in range(2, 41):
+        yield table_ob(fx, 'ALIGNMENT_POS', v - 2, list(ap[v - 2]), iso.alignment_centres(v))
+
+
+@rule('C02', 'R3', 48, 'matrix size = 17+4v / 9+2k; Micro version constants ordered below 1')
+def r3(fx):
+    mv = micro_versions(fx)
+    yield ob('Micro constants strictly ascending and < 1', mv[-3] < mv[-2] < mv[-1] < mv[0] < 1
+             and all(isinstance(x, int) for x in mv.values()), fx.forest.mod('consts'), where='consts.VERSION_M*',
+             got=[mv[k] for k in (-3, -2, -1, 0)], want='M1 < M2 < M3 < M4 < 1 (integers)')
+    mm = C(fx, 'MICRO_VERSION_MAPPING')
+    yield ob('MICRO_VERSION_MAPPING names', mm == {'M1': mv[-3], 'M2': mv[-2], 'M3': mv[-1], 'M4': mv[0]},
+             fx.forest.mod('consts'), where='consts.MICRO_VERSION_MAPPING', got=mm, want='M1..M4 -> VERSION_M1..M4')
+    yield ob('MICRO_VERSIONS sorted tuple', tuple(C(fx, 'MICRO_VERSIONS')) == (mv[-3], mv[-2], mv[-1], mv[0]),
+             fx.forest.mod('consts'), where='consts.MICRO_VERSIONS', got=C(fx, 'MICRO_VERSIONS'), want='(M1, M2, M3, M4)')
+    it = Interp()
+    f = make_callable(fx.forest, 'encoder', 'calc_matrix_size', it)
+    fn = fx.fn('encoder', 'calc_matrix_size')
+    for v in iso.ALL_VERSIONS:
+        got = f(mv[v] if v < 1 else v)
+        yield ob(f'calc_matrix_size v{v}', got == iso.size_of(v), fn, got=got, want=iso.size_of(v))
+    # _encode uses it for width and height
+    enc = fx.fn('encoder', '_encode')
+    w = [s for s in enc.body if isinstance(s, ast.Assign) and ast.unparse(s.targets[0]) == 'width']
+    wa = single(w, 'assignment of width in _encode')
+    b = pat.need(wa.value, 'calc_matrix_size(H_v)', 'width in _encode')
+    h = single([s for s in enc.body if isinstance(s, ast.Assign) and ast.unparse(s.targets[0]) == 'height'], 'height')
+    yield ob('_encode: width = calc_matrix_size(version), height = width',
+             pat.slot(b['v'], ['version'], 'size argument') and pat.slot(h.value, ['width', 'calc_matrix_size(version)'], 'height'),
+             wa, got=f'{ast.unparse(wa)}; {ast.unparse(h)}', want='width = calc_matrix_size(version); height = width')
+
+
+def _build(fx, bld, v):
+    """Abstract matrix for iso version v after each stage: returns (after_patterns, final, used_version_index)."""
+    mv = micro_versions(fx)
+    rv = mv[v] if v < 1 else v
+    n = iso.size_of(v)
+    vt = reg.WordTable('V', 34)
+    genv = bld.with_consts(VERSION_INFO=vt)
+    genv['calc_format_info'] = lambda version, error, mask_pattern: reg.Word('F')
+    g = {k: (FuncVal(val.node, genv, bld.interp) if isinstance(val, FuncVal) else val) for k, val in genv.items()}
+    for k, val in g.items():
+        if isinstance(val, FuncVal):
+            val.genv = g
+    m = g['make_matrix'](n, n)
+    if not isinstance(m, reg.Matrix):
+        raise Unknown('make_matrix did not build a tuple of bytearray rows')
+    g['add_finder_patterns'](m, n, n)
+    g['add_alignment_patterns'](m, n, n)
+    stage1 = m.grid()
+    g['add_format_info'](m, rv, '<error>', '<mask>')
+    g['add_version_info'](m, rv)
+    return stage1, m.grid(), vt.used
+
+
+def _describe(val):
+    if isinstance(val, reg.Bit):
+        return repr(val)
+    return repr(val)
+
+
+@rule('C02', 'R5', 132, 'every cell of every symbol size: function patterns, format/version bit maps (both copies), reservation, conservation')
+def r5(fx):
+    bld = reg.Builder(fx.forest)
+    mv = micro_versions(fx)
+    where = 'encoder.make_matrix/add_*'
+    anchors = {k: fx.fn('encoder', k) for k in ('make_matrix', 'add_timing_pattern', 'add_finder_patterns',
+                                                'add_alignment_patterns', 'add_format_info', 'add_version_info')}
+    kind_fn = {'finder': 'add_finder_patterns', 'separator': 'add_finder_patterns', 'timing': 'add_timing_pattern',
+               'alignment': 'add_alignment_patterns', 'format': 'add_format_info', 'darkmodule': 'add_format_info',
+               'version': 'add_version_info', 'data': 'make_matrix'}
+    total_cells = 0
+    for v in iso.ALL_VERSIONS:
+        n = iso.size_of(v)
+        stage1, final, used = _build(fx, bld, v)
+        lay = iso.layout(v)
+        need(len(final) == n and all(len(r) == n for r in final), f'v{v}: matrix is not {n}x{n}')
+        bad = {}      # kind -> first few mismatches
+        for r in range(n):
+            for c in range(n):
+                total_cells += 1
+                got = final[r][c]
+                exp = lay.get((r, c))
+                if exp is None:
+                    ok = got == 2
+                    kind, want = 'data', 'placeholder 0x2 (data cell, untouched by function-pattern writers)'
+                else:
+                    kind, val = exp
+                    if kind == 'format':
+                        ok = isinstance(got, reg.Bit) and got.word == 'F' and got.k == val[2]
+                        want = f'format bit {val[2]} (copy {val[1] + 1})'
+                    elif kind == 'version':
+                        ok = isinstance(got, reg.Bit) and isinstance(got.word, tuple) and got.word[0] == 'V' and got.k == val[2]
+                        want = f'version bit {val[2]} (copy {val[1] + 1})'
+                    else:
+                        ok = (not isinstance(got, reg.Bit)) and got == val
+                        want = f'{kind} module {val}'
+                if not ok:
+                    bad.setdefault(kind, []).append(((r, c), _describe(got), want))
+        for kind in ('finder', 'separator', 'timing', 'alignment', 'format', 'darkmodule', 'version', 'data'):
+            if kind in ('alignment',) and v < 2 or kind == 'darkmodule' and v < 1 or kind == 'version' and v < 7:
+                if kind not in bad:
+                    continue
+            b = bad.get(kind)
+            anc = anchors[kind_fn[kind]]
+            key = f'v{v} {kind} cells'
+            if b:
+                def anch(rc):
+                    return tuple((x if x < n // 2 else f'N-{n - x}') for x in rc)
+                yield Ob(key, False, f'encoder.{kind_fn[kind]}', anc.lineno,
+                         '; '.join(f'{anch(rc)}: {g}' for rc, g, w in b[:4]) + (f' (+{len(b) - 4} more)' if len(b) > 4 else ''),
+                         '; '.join(f'{anch(rc)}: {w}' for rc, g, w in b[:4]), True)
+            else:
+                yield Ob(key, True, f'encoder.{kind_fn[kind]}', anc.lineno, 'as required', 'ISO layout', True)
+        # reservation: before format/version info is written, exactly those cells are 0-reserved
+        res_bad = []
+        for (r, c), (kind, val) in lay.items():
+            if kind in ('format', 'version', 'darkmodule') and stage1[r][c] != 0:
+                res_bad.append(((r, c), stage1[r][c]))
+        yield Ob(f'v{v} reservation covers format/version/dark-module cells', not res_bad, 'encoder.make_matrix',
+                 anchors['make_matrix'].lineno, res_bad[:5], 'value 0 before add_codewords', True)
+        # conservation
+        ndata = sum(1 for r in range(n) for c in range(n) if stage1[r][c] == 2)
+        want = iso.raw_data_modules(v) if v >= 1 else iso.MICRO_DATA_MODULES[v]
+        yield Ob(f'v{v} data cells = ISO data modules', ndata == want, 'encoder.make_matrix', anchors['make_matrix'].lineno,
+                 ndata, want, True)
+        # version word index
+        if v >= 7:
+            yield Ob(f'v{v} version word index', used == [v - 7], 'encoder.add_version_info', anchors['add_version_info'].lineno,
+                     used, [v - 7], True)
+        else:
+            yield Ob(f'v{v} no version information', used == [], 'encoder.add_version_info', anchors['add_version_info'].lineno,
+                     used, [], True)
+    fx.info['C02.R5 cells compared'] = total_cells
+
+
+@rule('C02', 'R6', 1312, 'format word index = (level indicator << 3 | mask) / (Micro symbol number << 2 | mask) for all (version, level, mask)')
+def r6(fx):
+    lv = levels(fx)
+    mv = micro_versions(fx)
+    for n, want in iso.LEVEL_INDICATOR.items():
+        yield table_ob(fx, 'ERROR_LEVEL_' + n, 'indicator', lv[n], want)
+    t13 = C(fx, 'ERROR_LEVEL_TO_MICRO_MAPPING')
+    for (v, l), want in iso.MICRO_SYMBOL_NUMBER.items():
+        got = t13.get(mv[v], {}).get(None if l is None else lv[l])
+        yield table_ob(fx, 'ERROR_LEVEL_TO_MICRO_MAPPING', f'{v}-{l}', got, want)
+    bld = reg.Builder(fx.forest)
+    fq, fm = reg.WordTable('FQ', 32), reg.WordTable('FM', 32)
+    genv = bld.with_consts(FORMAT_INFO=fq, FORMAT_INFO_MICRO=fm)
+    f = FuncVal(fx.fn('encoder', 'calc_format_info'), genv, bld.interp)
+    fn = fx.fn('encoder', 'calc_format_info')
+    for v in iso.ALL_VERSIONS:
+        for l in iso.levels_of(v):
+            for mask in range(8 if v >= 1 else 4):
+                w = f(mv[v] if v < 1 else v, None if l is None else lv[l], mask)
+                if v >= 1:
+                    want = ('FQ', (iso.LEVEL_INDICATOR[l] << 3) | mask)
+                else:
+                    want = ('FM', (iso.MICRO_SYMBOL_NUMBER[(v, l)] << 2) | mask)
+                got = w.name if isinstance(w, reg.Word) and w.shift == 0 else w
+                yield ob(f'format index v{v}-{l} mask {mask}', got == want, fn, got=got, want=want)
+    # add_format_info uses calc_format_info(version, error, mask_pattern) of its own parameters
+    afi = fx.fn('encoder', 'add_format_info')
+    a = single([s for s in afi.body if isinstance(s, ast.Assign) and ast.unparse(s.targets[0]) == 'format_info'], 'format_info')
+    b = pat.need(a.value, 'calc_format_info(H_v, H_e, H_m)', 'format word lookup')
+    yield ob('add_format_info looks up its own (version, error, mask_pattern)',
+             pat.slot(b['v'], ['version'], 'v') and pat.slot(b['e'], ['error'], 'e') and pat.slot(b['m'], ['mask_pattern'], 'm'),
+             a, got=ast.unparse(a.value), want='calc_format_info(version, error, mask_pattern)')
+
+
+def _top_calls(fn):
+    """[(name, call, stmt)] for top-level statements of fn that are calls or assignments from calls."""
+    out = []
+    for st in fn.body:
+        call = None
+        if isinstance(st, ast.Expr) and isinstance(st.value, ast.Call):
+            call = st.value
+        elif isinstance(st, (ast.Assign, ast.Return)) and isinstance(st.value, ast.Call):
+            call = st.value
+        if call is not None and src.call_name(call):
+            out.append((src.call_name(call), call, st))
+    return out
+
+
+@rule('C02', 'R7', 60, 'metadata: values written into the symbol are the ones stored in Code and reported by QRCode; name maps invertible')
+def r7(fx):
+    enc = fx.fn('encoder', '_encode')
+    calls = _top_calls(enc)
+    names = [c[0] for c in calls]
+    seq = ['make_matrix', 'add_finder_patterns', 'add_alignment_patterns', 'add_codewords', 'find_and_apply_best_mask',
+           'add_format_info', 'add_version_info', 'Code']
+    idxs = [names.index(s) if s in names else -1 for s in seq]
+    yield ob('_encode stage order', all(i >= 0 for i in idxs) and idxs == sorted(idxs) and all(names.count(s) == 1 for s in seq),
+             enc, got=[n for n in names if n in seq], want=seq)
+    need(all(i >= 0 for i in idxs), 'a stage of _encode is missing')
+    by = {c[0]: c for c in calls}
+    afi = pat.need(by['add_format_info'][1], 'add_format_info(matrix, H_v, H_e, H_m)', 'add_format_info call')
+    avi = pat.need(by['add_version_info'][1], 'add_version_info(matrix, H_v)', 'add_version_info call')
+    code = pat.need(by['Code'][1], 'Code(matrix, H_v, H_e, H_m, H_s)', 'Code(...) call')
+    yield ob('format info gets (version, error, mask) = Code fields',
+             all(pat.slot(x, [w], w) for x, w in ((afi['v'], 'version'), (afi['e'], 'error'), (afi['m'], 'mask'),
+                                                  (code['v'], 'version'), (code['e'], 'error'), (code['m'], 'mask'),
+                                                  (avi['v'], 'version'), (code['s'], 'segments'))),
+             by['Code'][2], got=f"{ast.unparse(by['add_format_info'][1])}; {ast.unparse(by['add_version_info'][1])}; {ast.unparse(by['Code'][1])}",
+             want='add_format_info(matrix, version, error, mask); add_version_info(matrix, version); Code(matrix, version, error, mask, segments)')
+    # no redefinition of version / error / mask / matrix between the mask stage and Code(...)
+    i_mask = enc.body.index(by['find_and_apply_best_mask'][2])
+    redefs = []
+    for st in enc.body[i_mask + 1:]:
+        for n in ast.walk(st):
+            if isinstance(n, ast.Name) and isinstance(n.ctx, ast.Store) and n.id in ('version', 'error', 'mask', 'matrix'):
+                redefs.append(f'{n.id} at line {n.lineno}')
+    yield ob('no redefinition of version/error/mask/matrix after masking', not redefs, enc, got=redefs, want=[])
+    mst = by['find_and_apply_best_mask'][2]
+    okm = isinstance(mst, ast.Assign) and ast.unparse(mst.targets[0]) in ('(mask, matrix)', 'mask, matrix')
+    yield ob('mask and matrix are the pair returned by find_and_apply_best_mask', okm, mst, got=ast.unparse(mst)[:80],
+             want='mask, matrix = find_and_apply_best_mask(matrix, width, height, mask)')
+    # version is never reassigned in _encode
+    vdefs = [n for n in ast.walk(enc) if isinstance(n, ast.Name) and isinstance(n.ctx, ast.Store) and n.id == 'version']
+    yield ob('version has a single definition (the parameter) in _encode', not vdefs, enc,
+             got=[f'line {n.lineno}' for n in vdefs], want=[])
+    # QRCode.__init__ copies
+    init = fx.fn('__init__', 'QRCode.__init__')
+    want_copy = {'self.matrix': ['matrix', 'code.matrix'], 'self.mask': ['code.mask'], 'self._version': ['code.version'],
+                 'self._error': ['code.error']}
+    got_copy = {ast.unparse(s.targets[0]): s.value for s in init.body if isinstance(s, ast.Assign)}
+    for tgt, acc in want_copy.items():
+        need(tgt in got_copy, f'QRCode.__init__ does not assign {tgt}')
+        yield ob(f'QRCode.__init__: {tgt}', pat.slot(got_copy[tgt], acc, tgt), init, got=ast.unparse(got_copy[tgt]), want=acc[-1])
+    need('matrix' in got_copy or True, '')
+    if 'matrix' in got_copy:
+        yield ob('QRCode.__init__: matrix', pat.slot(got_copy['matrix'], ['code.matrix'], 'matrix'), init,
+                 got=ast.unparse(got_copy['matrix']), want='code.matrix')
+    ms = got_copy.get('self._matrix_size')
+    need(ms is not None, 'QRCode.__init__ does not assign self._matrix_size')
+    yield ob('QRCode._matrix_size is read from the matrix', nf.norm(ms) in ('(len(matrix[0]), len(matrix))',), init,
+             got=ast.unparse(ms), want='(len(matrix[0]), len(matrix))')
+    md = got_copy.get('self._mode')
+    need(md is not None, 'QRCode.__init__ does not assign self._mode')
+    bm = pat.need(md, 'code.segments[0].mode if len(code.segments) == 1 else None', 'QRCode._mode')
+    yield ob('QRCode._mode is the mode of the single segment', bm is not None, init, got=ast.unparse(md),
+             want='code.segments[0].mode if len(code.segments) == 1 else None')
+    # properties
+    props = {'version': 'encoder.get_version_name(self._version)', 'is_micro': 'self._version < 1',
+             'default_border_size': 'utils.get_default_border_size(self._matrix_size)'}
+    for p, want in props.items():
+        f = fx.fn('__init__', f'QRCode.{p}')
+        rets = [s for s in ast.walk(f) if isinstance(s, ast.Return)]
+        r = single(rets, f'return in QRCode.{p}')
+        yield ob(f'QRCode.{p}', pat.slot(r.value, [want], p) if pat.simple(r.value) or nf.norm(r.value) == nf.norm(ast.parse(want, mode="eval").body)
+                 else _unknown(f'QRCode.{p} returns `{ast.unparse(r.value)}`'), f, got=ast.unparse(r.value), want=want)
+    f = fx.fn('__init__', 'QRCode.error')
+    rets = sorted(ast.unparse(s.value) for s in ast.walk(f) if isinstance(s, ast.Return))
+    yield ob('QRCode.error', rets == ['None', 'encoder.get_error_name(self._error)'], f, got=rets,
+             want=['None', 'encoder.get_error_name(self._error)'])
+    f = fx.fn('__init__', 'QRCode.mode')
+    rets = sorted(ast.unparse(s.value) for s in ast.walk(f) if isinstance(s, ast.Return))
+    yield ob('QRCode.mode', rets == ['None', 'encoder.get_mode_name(self._mode)'], f, got=rets,
+             want=['None', 'encoder.get_mode_name(self._mode)'])
+    # name functions invert the mappings (decision table over all constants)
+    it = Interp()
+    mv = micro_versions(fx)
+    gvn = make_callable(fx.forest, 'encoder', 'get_version_name', it)
+    for v in iso.ALL_VERSIONS:
+        want = v if v >= 1 else f'M{v + 4}'
+        got = gvn(mv[v] if v < 1 else v)
+        yield ob(f'get_version_name v{v}', got == want, fx.fn('encoder', 'get_version_name'), got=got, want=want)
+    gen = make_callable(fx.forest, 'encoder', 'get_error_name', it)
+    for n, val in levels(fx).items():
+        yield ob(f'get_error_name {n}', gen(val) == n, fx.fn('encoder', 'get_error_name'), got=gen(val), want=n)
+    gmn = make_callable(fx.forest, 'encoder', 'get_mode_name', it)
+    mm = C(fx, 'MODE_MAPPING')
+    yield ob('MODE_MAPPING values unique', len(set(mm.values())) == len(mm), fx.forest.mod('consts'),
+             where='consts.MODE_MAPPING', got=mm, want='injective')
+    for name, val in mm.items():
+        yield ob(f'get_mode_name {name}', gmn(val) == name, fx.fn('encoder', 'get_mode_name'), got=gmn(val), want=name)
+    # designator
+    f = fx.fn('__init__', 'QRCode.designator')
+    r = single([s for s in ast.walk(f) if isinstance(s, ast.Return)], 'return in designator')
+    yield ob('QRCode.designator', nf.norm(r.value) == "'-'.join((version, self.error) if self.error else (version,))"
+             and any(ast.unparse(s) == 'version = str(self.version)' for s in f.body), f, got=ast.unparse(r.value),
+             want="'-'.join((version, self.error) if self.error else (version,))")
+    # default border and symbol size over all sizes
+    gdb = make_callable(fx.forest, 'utils', 'get_default_border_size', it)
+    bad = [(v, gdb((iso.size_of(v),) * 2)) for v in iso.ALL_VERSIONS if gdb((iso.size_of(v),) * 2) != (2 if v < 1 else 4)]
+    yield ob('default border: 2 for the four Micro sizes, 4 for the forty QR sizes', not bad, fx.fn('utils', 'get_default_border_size'),
+             got=bad[:4], want=[])
+    gss = make_callable(fx.forest, 'utils', 'get_symbol_size', it)
+    bad = []
+    for v in (-3, 0, 1, 7, 40):
+        n = iso.size_of(v)
+        for s in (1, 3, 2.5):
+            for b in (None, 0, 1, 5):
+                bb = (2 if v < 1 else 4) if b is None else b
+                got = gss((n, n), s, b)
+                if tuple(got) != ((n + 2 * bb) * s, (n + 2 * bb) * s):
+                    bad.append((n, s, b, got))
+    yield ob('get_symbol_size = (size + 2*border) * scale', not bad, fx.fn('utils', 'get_symbol_size'), got=bad[:3], want=[])
+    f = fx.fn('__init__', 'QRCode.symbol_size')
+    r = single([s for s in ast.walk(f) if isinstance(s, ast.Return)], 'return in symbol_size')
+    yield ob('QRCode.symbol_size', nf.norm(r.value) == 'utils.get_symbol_size(self._matrix_size,scale=scale,border=border)', f,
+             got=ast.unparse(r.value), want='utils.get_symbol_size(self._matrix_size, scale=scale, border=border)')
+
+
+def _unknown(msg):
+    raise Unknown(msg)
+
+
+@rule('C02', 'R4', 3, 'literal patterns: finder 7x7 with separator ring, alignment 5x5')
+def r4(fx):
+    fp = C(fx, '_FINDER_PATTERN', 'encoder')
+    want = [[0] * 9] + [[0] + list(r) + [0] for r in iso.FINDER] + [[0] * 9]
+    yield table_ob(fx, '_FINDER_PATTERN', 'all', [list(r) for r in fp], want, mod='encoder')
+    fn = fx.fn('encoder', 'add_alignment_patterns')
+    a = single([s for s in fn.body if isinstance(s, ast.Assign) and ast.unparse(s.targets[0]) == 'pattern'], 'alignment literal')
+    val = list(ev.ev(a.value, {}))
+    yield ob('alignment literal', val == [x for r in iso.ALIGNMENT for x in r], a, got=val, want='ISO 5x5 alignment pattern')
+    v = single([s for s in fn.body if isinstance(s, ast.Assign) and ast.unparse(s.targets[0]) == 'version'], 'version from width')
+    okv = all(ev.ev(v.value, {'width': iso.size_of(k)}) == k for k in range(1, 41))
+    yield ob('version derived from width for all 40 QR sizes', okv, v, got=ast.unparse(v.value), want='(width - 17) // 4')
